@@ -58,7 +58,7 @@ theorem J_cmd (atomic : Bool) (m : KM) (c : Cmd) (h : J atomic m) : J atomic (cm
     simp only [cmdStep, Bool.or_eq_false_iff] at hd hr
     exact consistent_mono r _ _ (h4 r hr hd.1)
 
-theorem J_saver (atomic : Bool) (m : KM) (h : J atomic m) : J atomic (saverStep atomic m) := by
+theorem J_saver (atomic itemsFirst : Bool) (m : KM) (h : J atomic m) : J atomic (saverStep atomic itemsFirst m) := by
   obtain ⟨h1, h2, h3, h4⟩ := h
   unfold saverStep
   cases hp : m.phase with
@@ -116,16 +116,33 @@ theorem J_saver (atomic : Bool) (m : KM) (h : J atomic m) : J atomic (saverStep 
       cases atomic with
       | false => rfl
       | true => have := (h2 rfl).1; simp [hp, midKey] at this
-    refine ⟨h1, fun ha => by simp [hna] at ha, ?_, ?_⟩
-    · intro hd
+    cases itemsFirst with
+    | true =>
+      simp only [if_true]
+      refine ⟨h1, fun ha => by simp [hna] at ha, fun _ => by simp [PhaseOK], ?_⟩
+      intro r hr hd
       have := h3 hd
       simp only [PhaseOK, hp] at this
       obtain ⟨hcur, hheld, hz⟩ := this
       have hv := isZset_zset hz
-      simp only [PhaseOK, hheld]
-      rw [hcur, ← hv]
-      simp
-    · intro r hr; simp at hr
+      simp at hr
+      subst hr
+      refine ⟨?_, by simp [isZset, zitems]⟩
+      simp only [hheld]
+      rw [← hv]
+      simpa [hcur] using h1
+    | false =>
+      simp only [Bool.false_eq_true, if_false]
+      refine ⟨h1, fun ha => by simp [hna] at ha, ?_, ?_⟩
+      · intro hd
+        have := h3 hd
+        simp only [PhaseOK, hp] at this
+        obtain ⟨hcur, hheld, hz⟩ := this
+        have hv := isZset_zset hz
+        simp only [PhaseOK, hheld]
+        rw [hcur, ← hv]
+        simp
+      · intro r hr; simp at hr
   | gotLen ttl len =>
     simp only []
     have hna : atomic = false := by
@@ -152,7 +169,7 @@ theorem J_saver (atomic : Bool) (m : KM) (h : J atomic m) : J atomic (saverStep 
       simp at hr'
       exact h4 r' (by rw [hp, hr']) hd
 
-theorem J_run (atomic : Bool) (evs : List KEv) : ∀ m, J atomic m → J atomic (krun atomic m evs) := by
+theorem J_run (atomic itemsFirst : Bool) (evs : List KEv) : ∀ m, J atomic m → J atomic (krun atomic itemsFirst m evs) := by
   induction evs with
   | nil => intro m h; exact h
   | cons e es ih =>
@@ -160,8 +177,63 @@ theorem J_run (atomic : Bool) (evs : List KEv) : ∀ m, J atomic m → J atomic 
     simp only [krun, List.foldl_cons]
     apply ih
     cases e with
-    | saver => exact J_saver atomic m h
+    | saver => exact J_saver atomic itemsFirst m h
     | cmd c => exact J_cmd atomic m c h
+
+
+/-! ### with the items materialised first, the declared length is always the number of items -/
+
+def LenOK (m : KM) : Prop :=
+  (∀ t l, m.phase ≠ .gotLen t l) ∧
+  ∀ r, m.phase = .done (some r) → r.zlen = (if isZset r.val then some (zitems r.val).length else none)
+
+theorem lenOK_run (atomic : Bool) (evs : List KEv) : ∀ m, LenOK m → LenOK (krun atomic true m evs) := by
+  induction evs with
+  | nil => intro m h; exact h
+  | cons e es ih =>
+    intro m h
+    simp only [krun, List.foldl_cons]
+    apply ih
+    cases e with
+    | cmd c => exact ⟨by simpa [kstep, cmdStep] using h.1, by simpa [kstep, cmdStep] using h.2⟩
+    | saver =>
+      simp only [kstep, saverStep]
+      cases hp : m.phase with
+      | start =>
+        simp only []
+        cases hc : m.cur with
+        | none => exact ⟨by simp, by simp⟩
+        | some p =>
+          obtain ⟨v, dl⟩ := p
+          simp only []
+          split
+          · refine ⟨by simp, ?_⟩
+            intro r hr
+            simp at hr
+            subst hr
+            rfl
+          · exact ⟨by simp, by simp⟩
+      | gotValue v =>
+        simp only []
+        split
+        · exact ⟨by simp, by simp⟩
+        · rename_i hz
+          refine ⟨by simp, ?_⟩
+          intro r hr
+          simp at hr
+          subst hr
+          simp [hz]
+      | gotTtl v ttl =>
+        simp only [if_true]
+        refine ⟨by simp, ?_⟩
+        intro r hr
+        simp at hr
+        subst hr
+        simp [isZset, zitems]
+      | gotLen ttl len => exact absurd hp (h.1 ttl len)
+      | done r =>
+        simp only []
+        exact ⟨by simp, fun r' hr' => h.2 r' (by simp at hr'; rw [hp, hr'])⟩
 
 /-! ### from records to bytes -/
 
